@@ -274,7 +274,9 @@ func runScen(s scen) {
 			v = verdict{false, sig, what}
 		}
 	}
-	var results []callRes
+	results := make([]callRes, 0, 64)
+	var resMu sync.Mutex
+	resMuFinal, resPtr := &resMu, &results
 	var trace []sample
 	var trMu sync.Mutex
 	stopSampler := make(chan struct{})
@@ -322,7 +324,6 @@ func runScen(s scen) {
 			}
 		}
 		var wg sync.WaitGroup
-		var resMu sync.Mutex
 		buf := make([]byte, 1<<16)
 		for i, o := range s.ops {
 			if i == s.faultAt {
@@ -400,7 +401,9 @@ func runScen(s scen) {
 		}
 		// the network stays as it is; both muxers are now stopped (if not already): must return
 		okc, _, dc := within(bound, func() error { cm.Stop(); return nil })
+		resMu.Lock()
 		results = append(results, callRes{"final c.Stop", okc, "", dc})
+		resMu.Unlock()
 		// closed semantics on the client tube after the muxer stopped
 		if okc {
 			if _, err := ct.Write([]byte("x")); err == nil {
@@ -462,7 +465,10 @@ func runScen(s scen) {
 		}
 	}
 	var rs []string
-	for _, r := range results {
+	resMuFinal.Lock()
+	resCopy := append([]callRes(nil), *resPtr...)
+	resMuFinal.Unlock()
+	for _, r := range resCopy {
 		if r.name == "" {
 			continue
 		}
